@@ -11,7 +11,7 @@ from ..avm.prims import Unsupported
 ID = "C16"
 LEVEL = "exploration"
 RULE = (
-    "1..6 numerator x 1..6 denominator factors (not both singletons), each a constant or an app-arg read; values "
+    "1..6 numerator x 1..6 denominator factors (not both singletons), each a constant, an app-arg read, a ScratchVar loaded from an app arg or a compound expression; optionally the quotient is stored back into one of the factor variables and read from there; assembleConstants and the slot optimiser on/off/default; values "
     "from boundary set, uniform, small, and solved so a running product sits just below/at/above 2**128 or the "
     "quotient at 2**64-1/2**64; versions 5..10. Oracle: Python big integers. non-trivial = >=3 factors on a side "
     "or expected class is a boundary class (overflow/quotient/div0) ; distinct by (factors, placement, version)."
@@ -82,10 +82,18 @@ def case_strategy(draw):
     if len(nums) == 1 and len(dens) == 1:
         dens = dens + [1]
     total = len(nums) + len(dens)
-    # placement: 'c' constant, 'a' app arg
-    place = draw(st.lists(st.sampled_from("ca"), min_size=total, max_size=total))
+    # placement: 'c' constant, 'a' app arg, 's' a scratch variable loaded from an app arg, 'x' a compound expression
+    place = draw(st.lists(st.sampled_from("ccaaasx"), min_size=total, max_size=total))
     version = draw(st.integers(5, 10))
-    return {"nums": [str(x) for x in nums], "dens": [str(x) for x in dens], "place": "".join(place), "version": version}
+    case = {"nums": [str(x) for x in nums], "dens": [str(x) for x in dens], "place": "".join(place), "version": version}
+    k = draw(st.integers(0, 7))
+    if k == 0:
+        case["assemble"] = True
+    if k in (1, 2):
+        case["scratch_slots"] = (k == 1)
+    if "s" in case["place"] and draw(st.booleans()):
+        case["result_into"] = case["place"].index("s")  # the quotient is stored back into that factor's variable, then read
+    return case
 
 
 def expected(nums, dens):
@@ -114,14 +122,35 @@ def build(case):
     dens = [int(x) for x in case["dens"]]
     args = []
     exprs = []
-    for v, p in zip(nums + dens, case["place"]):
+    pre = []
+    svars = {}
+    for pos, (v, p) in enumerate(zip(nums + dens, case["place"])):
         if p == "c":
             exprs.append(pt.Int(v))
+        elif p == "s":
+            sv = pt.ScratchVar(pt.TealType.uint64)
+            svars[pos] = sv
+            pre.append(sv.store(pt.Btoi(pt.Txn.application_args[len(args)])))
+            args.append(v.to_bytes(8, "big"))
+            exprs.append(sv.load())
+        elif p == "x":
+            # compound factor: (arg - 1) + 1 for v >= 1, arg * 1 for 0
+            a = pt.Btoi(pt.Txn.application_args[len(args)])
+            if v >= 1:
+                exprs.append(a + pt.Int(1))
+                args.append((v - 1).to_bytes(8, "big"))
+            else:
+                exprs.append(a * pt.Int(1))
+                args.append(v.to_bytes(8, "big"))
         else:
             exprs.append(pt.Btoi(pt.Txn.application_args[len(args)]))
             args.append(v.to_bytes(8, "big"))
     ne, de = exprs[: len(nums)], exprs[len(nums) :]
-    prog = pt.Seq(pt.Log(pt.Itob(pt.WideRatio(ne, de))), pt.Int(1))
+    if case.get("result_into") in svars:
+        sv = svars[case["result_into"]]
+        prog = pt.Seq(*pre, sv.store(pt.WideRatio(ne, de)), pt.Log(pt.Itob(sv.load())), pt.Int(1))
+    else:
+        prog = pt.Seq(*pre, pt.Log(pt.Itob(pt.WideRatio(ne, de))), pt.Int(1))
     return prog, args
 
 
@@ -134,7 +163,8 @@ def judge(case):
     exp = expected(nums, dens)
     try:
         prog, args = build(case)
-        teal = pt.compileTeal(prog, pt.Mode.Application, version=case["version"])
+        opt = pt.OptimizeOptions(scratch_slots=case["scratch_slots"]) if "scratch_slots" in case else None
+        teal = pt.compileTeal(prog, pt.Mode.Application, version=case["version"], assembleConstants=bool(case.get("assemble")), optimize=opt)
     except Exception as e:
         return [("compile-error:%s" % type(e).__name__, "WideRatio program failed to compile: %r" % (e,))]
     ctx = Ctx("app", [{"ApplicationArgs": args, "ApplicationID": 1001, "TypeEnum": 6}], 0)
